@@ -20,7 +20,7 @@ use std::process::{Command, Stdio};
 use std::sync::atomic::{AtomicUsize, Ordering};
 use std::sync::{Arc, Mutex};
 
-pub const FAMILIES: [&str; 26] = [
+pub const FAMILIES: [&str; 30] = [
     "block-literal-lines",
     "block-folded-long-lines",
     "block-wide-indent",
@@ -47,6 +47,10 @@ pub const FAMILIES: [&str; 26] = [
     "indentless-sequences",
     "flow-multiline-comments",
     "anchored-small-collections",
+    "reserved-directives",
+    "tag-directives",
+    "document-end-markers",
+    "blank-and-comment-prologue",
 ];
 pub const APIS: [&str; 4] = ["iter-str", "iter-buffered", "load-yaml", "load-marked"];
 pub const RATIO_LIMIT: f64 = 6.0;
@@ -258,6 +262,33 @@ pub fn render(family: &str, bytes: usize) -> String {
                 s.push_str("  a, # comment\n  {b: c}, # another\n");
             }
             s.push_str("]\n");
+        }
+        "reserved-directives" => {
+            while s.len() < bytes {
+                s.push_str(&format!("%FOO{} bar baz\n", k % 7));
+                k += 1;
+            }
+            s.push_str("--- a\n");
+        }
+        "tag-directives" => {
+            while s.len() < bytes {
+                s.push_str(&format!("%TAG !h{k}! tag:x.y,2000:{k}/\n"));
+                k += 1;
+            }
+            s.push_str("--- !h1!a b\n");
+        }
+        "document-end-markers" => {
+            s.push_str("a\n");
+            while s.len() < bytes {
+                s.push_str("...\n");
+            }
+            s.push_str("b\n");
+        }
+        "blank-and-comment-prologue" => {
+            while s.len() < bytes {
+                s.push_str("\n   \n# c\n\t\n");
+            }
+            s.push_str("a: b\n");
         }
         "anchored-small-collections" => {
             while s.len() < bytes {
